@@ -3989,6 +3989,22 @@ class SFTPClient:
                     if filename in (b'.', b'..'):
                         continue
 
+                    if not filename or b'/' in filename:
+                        # Never let a name from a directory listing
+                        # address anything outside of the directory
+                        exc = SFTPBadMessage('Invalid file name in '
+                                             'directory listing')
+
+                        setattr(exc, 'srcpath',
+                                posixpath.join(srcpath, filename))
+                        setattr(exc, 'dstpath', dstpath)
+
+                        if error_handler:
+                            error_handler(exc)
+                            continue
+                        else:
+                            raise exc
+
                     srcfile = posixpath.join(srcpath, filename)
                     dstfile = posixpath.join(dstpath, filename)
 
